@@ -172,8 +172,8 @@ _AS_BUILT = {
          ' As built: r8 is the evaluated normaliser rule (no variable of the evaluated tree unbound or captured), r9 the evaluated typing rules incl. ill-typed-operand scenarios, r10 declaration-variable reads.',
          'NOT decided: that every structure the evaluator dereferences is implied by the accepting typing rule for whole expressions (decided per construct on a bounded type universe only). Known findings (3): evaluator refuses silently for declarations / anonymous function definitions (unknownError).'),
  'C03': ('; ' + E4 + ' of each Vi* typing rule over all operand-type vectors of a bounded universe against reference rules, including vectors with an ill-typed operand; scope discipline and recursion typing evaluated',
-         ' As built: r4 declared arguments (the argument visitors and scope functions interpreted on argument lists whose domains open scopes of their own), r6 value-class table, r7 scope discipline, r8 type algebra (lub, template instantiation incl. any-typed arguments), r9 typing rules of 16 constructs (every operand is visited on every path), recursion typing against the sound rule (least type covering initial value and step, fixed point required).',
-         'Principal types of whole expressions are decided per construct on a bounded universe (depth <= 2, arity <= 3), not for arbitrary nesting. Five audit findings (filter parameters skipped, recursion typed by its step, template parameters left un-instantiated by an any-typed argument, declared arguments read through stale positions) were decided by r4/r8/r9 and repaired.'),
+         ' As built: r4 declared arguments (the argument visitors and scope functions interpreted on argument lists whose domains open scopes of their own), r6 value-class table, r7 scope discipline, r8 type algebra (lub, template instantiation incl. any-typed arguments), r5 the constituent-kind constraints as CheckConstituenta interpreted on every (kind, definition text, outcome of the expression check) - a definition the parser cannot see is no definition, r9 typing rules of 17 constructs incl. the tuple binder (every operand is visited on every path; the any type is merged, never looked up; index 0 is valid for no tuple), recursion typing against the sound rule (least type covering initial value and step, fixed point required).',
+         'Principal types of whole expressions are decided per construct on a bounded universe (depth <= 2, arity <= 3), not for arbitrary nesting. Five audit findings (filter parameters skipped, recursion typed by its step, template parameters left un-instantiated by an any-typed argument, declared arguments read through stale positions) were decided by r4/r8/r9 and repaired. A second audit added four (blank definition of a derived constituent typed as a base set; tuple binder, arithmetic and ordering refusing the any type; index and parameter-shape checks skipped for the any type): the reference tables of r9, which had frozen the old treatment of the any type, were corrected first; all repaired.'),
  'C05': ('; ' + E4 + ' of the lexer base (token data) for numbers',
          ' As built: r6 ConvertTo, r7 LITERALS-REPRESENTABLE (shared C06 r9): a literal / index the token data cannot hold is refused, never wrapped into a number that prints differently.',
          'The family is finite (quick: witness operands; thorough: all 13233 tree-grammar sentences). r8 IDENTIFIER-CLOSURE decides that every identifier the MATH lexer accepts prints to one ASCII identifier of the same kind (two audit findings repaired). Not decided: ConvertTo applied twice (arguable).'),
